@@ -107,6 +107,8 @@ Definition one_answer_b (es : list event) : bool :=
 (* ------------------------------------------------------------------------------------------------
    C01 + C02, the service discipline monitor.  It keeps, per worker, the requests accepted since the last send
    (in order) and the waiters of the block being sent, and checks
+   - ESwap: the waiters of the portion are the requests accepted since the previous swap; requests accepted
+     later (also those served between swapBuffers and the call of Do) wait for the next portion;
    - ESend: the block is exactly the column-wise concatenation of what ProcessRequest appends for the accepted
      requests, in order, and of nothing else (C02: block_carries_its_waiters; with well-formed requests this is
      the table of their rows, blocks_good) -- see smode; a request that appended cells although nothing was
@@ -114,7 +116,7 @@ Definition one_answer_b (es : list event) : bool :=
    - EResolve: a promise is completed either by Request itself (only as reported by EReq: nothing inserted, or
      service stopped) or in the burst that follows the EDone of the block it waits for, with that Do's outcome
      (C01: promise_resolved_with_its_block). *)
-Record wmon := { w_open : list (pid * req); w_infl : option (list (pid * req)) }.
+Record wmon := { w_open : list (pid * req); w_infl : option (list (pid * req) * bool) }.   (* waiters of the portion taken, Do called? *)
 Record smon := {
   s_w : list wmon;
   s_rel : option (list (pid * req) * bool);     (* waiters being released and the outcome of their Do *)
@@ -175,16 +177,27 @@ Definition smon_step (md : smode) (m : smon) (e : event) : option smon :=
               end
           end
       end
-  | ESend s k b =>
+  | ESwap s =>
       match nth_error (s_w m) s with
       | Some w =>
           match w_infl w, w_open w with
           | None, _ :: _ =>
-              if send_ok md k (w_open w) b
-              then Some {| s_w := upd s {| w_open := []; w_infl := Some (w_open w) |} (s_w m);
+              Some {| s_w := upd s {| w_open := []; w_infl := Some (w_open w, false) |} (s_w m);
+                      s_rel := None; s_imm := None |}
+          | _, _ => None                 (* a portion is never empty; one portion at a time *)
+          end
+      | None => None
+      end
+  | ESend s k b =>
+      match nth_error (s_w m) s with
+      | Some w =>
+          match w_infl w with
+          | Some (ws, false) =>
+              if send_ok md k ws b
+              then Some {| s_w := upd s {| w_open := w_open w; w_infl := Some (ws, true) |} (s_w m);
                            s_rel := None; s_imm := None |}
               else None
-          | _, _ => None
+          | _ => None
           end
       | None => None
       end
@@ -192,9 +205,9 @@ Definition smon_step (md : smode) (m : smon) (e : event) : option smon :=
       match nth_error (s_w m) s with
       | Some w =>
           match w_infl w with
-          | Some ws => Some {| s_w := upd s {| w_open := w_open w; w_infl := None |} (s_w m);
-                               s_rel := Some (ws, ok); s_imm := None |}
-          | None => None
+          | Some (ws, true) => Some {| s_w := upd s {| w_open := w_open w; w_infl := None |} (s_w m);
+                                       s_rel := Some (ws, ok); s_imm := None |}
+          | _ => None
           end
       | None => None
       end
